@@ -169,7 +169,7 @@ func checkConverged(w *world, requireAll bool) (string, error) {
 		lu := lastUser[id]
 		if found {
 			st := getStatus(o)
-			if lu.Kind == stInsertDone {
+			if lu.Kind == stInsertDone || lu.Kind == stInsertUnset {
 				// declared reconciled by the user: nothing is owed
 				continue
 			}
@@ -321,7 +321,7 @@ func checkWriteBack(w *world) (string, error) {
 	doneGens := map[[2]int]bool{}
 	w.mu.Lock()
 	for _, u := range w.writes {
-		if u.Kind == stInsertDone {
+		if u.Kind == stInsertDone || u.Kind == stInsertUnset {
 			doneGens[[2]int{int(u.ID), u.Gen}] = true
 		}
 	}
@@ -347,7 +347,7 @@ func checkWriteBack(w *world) (string, error) {
 	return "", nil
 }
 
-var profC15 = profile{stepKinds: []int{stUpsert, stUpsert, stUpsert, stDelete, stDelReinsert, stInsertDone, stStatusOnly, stPrune, stInitDone}, injKinds: []int{0, 1, 1, 2, 3, 5, 5}, maxFaults: 3, prune: true, inits: true, refresh: true, hookInj: true, maxID: 4}
+var profC15 = profile{stepKinds: []int{stUpsert, stUpsert, stUpsert, stDelete, stDelReinsert, stInsertDone, stInsertUnset, stStatusOnly, stPrune, stInitDone}, injKinds: []int{0, 1, 1, 2, 3, 5, 5}, maxFaults: 3, prune: true, inits: true, refresh: true, hookInj: true, maxID: 4}
 
 const ruleC15 = "the C14 stack with write injection: while an Update/UpdateBatch/Delete call is in flight the mock performs a user write on the very object being reconciled (update of the data, delete, delete+re-insert, or a second reconciler's status-only change that keeps the pending id), i.e. between the reconciler's snapshot and its status commit; further user writes are performed at the wtxn.beforeLock hook of the reconciler's own write transactions (status commit, refresher), i.e. after it decided to write and before it holds the table lock; objects are also inserted with status Done, initializers are registered before start and completed by script steps, Prune() is triggered by script steps and by an interval, and in half of the cases the periodic refresher (50/300 ms) re-marks Done objects as Refreshing. Every committed table state is recorded at the commit.rootStored hook with the committing goroutine (user or reconciler). Checked: a reconciler write changes nothing but the status, never re-creates or removes an object, marks Done/Error only a version (id, generation) that a completed Update call with that outcome was given; Update is only called with Pending/Refreshing objects and never for user-Done versions; Prune only when initialized and with exactly Table.All of its transaction; finally everything converges. Non-trivial = a user write hit an operation in flight; distinct by case encoding."
 
